@@ -666,37 +666,49 @@ func genC04(c *fw.Ctx) {
 					u := doc.N("URL", "/rpc")
 					u.Paren = paren
 					ids := []string{"json-rpc-2.0 do.it /rpc", "json-rpc-2.0 other /rpc"}
-					if second {
-						u.Kids = []*doc.Node{doc.N("Protocol", "json-rpc-2.0"), other, m}
-						ids = []string{ids[1], ids[0]}
-					} else {
-						u.Kids = []*doc.Node{doc.N("Protocol", "json-rpc-2.0"), m, other}
-					}
-					nodes := append([]*doc.Node{doc.Jsight()}, fillerTypes(e)...)
-					nodes = append(nodes, u, doc.N("TYPE", "@after", "any"))
-					p := "$.interactions.json-rpc-2.0 do.it /rpc"
-					e[keysPath("interactions")] = strings.Join(ids, "|")
-					e[p+".id"] = "json-rpc-2.0 do.it /rpc"
-					e[p+".protocol"] = "json-rpc-2.0"
-					e[p+".method"] = "do.it"
-					e[p+".path"] = "/rpc"
-					e[p+".httpMethod"] = absent
-					setOrAbsent(e, p+".annotation", ann, "rpc note")
-					setOrAbsent(e, p+".description", desc, "rpc text")
-					if params {
-						baByName("obj").digest(e, p+".params.schema")
-					} else {
-						e[p+".params"] = absent
-					}
-					if result {
-						baByName("arr").digest(e, p+".result.schema")
-					} else {
-						e[p+".result"] = absent
-					}
-					e["$.interactions.json-rpc-2.0 other /rpc.method"] = "other"
-					e["$.interactions.json-rpc-2.0 other /rpc.params"] = absent
-					for _, style := range styles {
-						judge(fmt.Sprintf("rpc paren=%v second=%v mask=%d order=%v style=%s", paren, second, mask, perm, style), nodes, e, style)
+					for protoPos := 0; protoPos <= 2; protoPos++ {
+						// the Protocol directive first, between the methods, last: the children of a URL are
+						// a set, too
+						ms := []*doc.Node{m, other}
+						if second {
+							ms = []*doc.Node{other, m}
+							ids = []string{"json-rpc-2.0 other /rpc", "json-rpc-2.0 do.it /rpc"}
+						}
+						u.Kids = nil
+						for k := 0; k <= 2; k++ {
+							if k == protoPos {
+								u.Kids = append(u.Kids, doc.N("Protocol", "json-rpc-2.0"))
+							}
+							if k < 2 {
+								u.Kids = append(u.Kids, ms[k])
+							}
+						}
+						nodes := append([]*doc.Node{doc.Jsight()}, fillerTypes(e)...)
+						nodes = append(nodes, u, doc.N("TYPE", "@after", "any"))
+						p := "$.interactions.json-rpc-2.0 do.it /rpc"
+						e[keysPath("interactions")] = strings.Join(ids, "|")
+						e[p+".id"] = "json-rpc-2.0 do.it /rpc"
+						e[p+".protocol"] = "json-rpc-2.0"
+						e[p+".method"] = "do.it"
+						e[p+".path"] = "/rpc"
+						e[p+".httpMethod"] = absent
+						setOrAbsent(e, p+".annotation", ann, "rpc note")
+						setOrAbsent(e, p+".description", desc, "rpc text")
+						if params {
+							baByName("obj").digest(e, p+".params.schema")
+						} else {
+							e[p+".params"] = absent
+						}
+						if result {
+							baByName("arr").digest(e, p+".result.schema")
+						} else {
+							e[p+".result"] = absent
+						}
+						e["$.interactions.json-rpc-2.0 other /rpc.method"] = "other"
+						e["$.interactions.json-rpc-2.0 other /rpc.params"] = absent
+						for _, style := range styles {
+							judge(fmt.Sprintf("rpc paren=%v second=%v protocol-at=%d mask=%d order=%v style=%s", paren, second, protoPos, mask, perm, style), nodes, e, style)
+						}
 					}
 					return true
 				}) // the children of the method in every order
